@@ -1137,3 +1137,11 @@ add("C06", "comment-gathering-visitor-kept-between-walks", CA,
     [("    visitor = _GatherCommentNodes(metadata, messages)\n    node.visit(visitor)\n    return visitor.is_disabled_by_linter(node)",
       "    return _Checker.shared(metadata, messages).check(node)\n\n\nclass _Checker:\n    _one = None\n\n    def __init__(self, metadata, messages):\n        self._visitor = _GatherCommentNodes(metadata, messages)\n\n    @classmethod\n    def shared(cls, metadata, messages):\n        if cls._one is None:\n            cls._one = cls(metadata, messages)\n        return cls._one\n\n    def check(self, node):\n        node.visit(self._visitor)\n        return self._visitor.is_disabled_by_linter(node)")],
     "fire", "R-FRESH-VISITOR", "check")
+DSC = "core_codemods/django_session_cookie_secure_off.py"
+add("C13", "already-correct-flag-recorded-only-on-permitted-lines", DSC,
+    [("        if is_session_cookie_secure(original_node):\n            if is_assigned_to_True(original_node):", "        if is_session_cookie_secure(original_node) and self.filter_by_path_includes_or_excludes(pos_to_match):\n            if is_assigned_to_True(original_node):")],
+    "fire", "R-GATE-NOT-OVER-STATE", "flag_correctly_set")
+SFS = "core_codemods/secure_flask_session_config.py"
+add("C13", "flask-app-name-recorded-only-on-permitted-lines", SFS,
+    [("        if self.find_base_name(original_node.func) == \"flask.Flask\":\n            self._store_flask_app(original_node)", "        if not self.filter_by_path_includes_or_excludes(self.node_position(original_node)):\n            return updated_node\n        if self.find_base_name(original_node.func) == \"flask.Flask\":\n            self._store_flask_app(original_node)")],
+    "fire", "R-GATE-NOT-OVER-STATE", "flask_app_name")
